@@ -3,7 +3,8 @@ Histories — the per-operation theorems lifted to EVERY finite call history (th
 
 `SOp` is the single-container sub-language whose operations have refinement theorems (it grows with the proof
 families): push_back (of an outside value or of the container's own element i), pop_back, erase, erase(range), clear,
-reserve, shrink_to_fit, resize(n), resize(n, v), append(range), insert(end, n, v).  A history is a list of (operation,
+reserve, shrink_to_fit, resize(n), resize(n, v), append(range), insert(end, n, v), insert(pos, v) / emplace(pos, v),
+insert(pos, T&&), insert(pos, v[i]).  A history is a list of (operation,
 fault list): the fault list is installed before the call, the call returns or throws, and the history continues from
 the world the call left behind — exactly how the harness drives the real container.
 
@@ -17,6 +18,7 @@ the world the call left behind — exactly how the harness drives the real conta
                      result if the call returned and the old list if a strong call threw.
 -/
 import SvModel.Properties.Core
+import SvModel.Properties.InsertProps
 
 namespace SvModel.History
 open SvModel Gen
@@ -26,6 +28,7 @@ inductive SOp (α : Type) where
   | pushBack (v : α) | pushBackSelf (i : Nat) | popBack | erase (p : Nat) | eraseRange (p q : Nat) | clear
   | reserve (n : Nat) | shrinkToFit | resize (n : Nat) (dflt : α) | resizeVal (n : Nat) (v : α)
   | append (vs : List α) | insertEndN (n : Nat) (v : α)
+  | insert (p : Nat) (v : α) | insertMove (p : Nat) (v : α) | insertSelf (p i : Nat)
 
 /-- API preconditions, in terms of the current size -/
 def SOp.valid (size : Nat) : SOp α → Prop
@@ -33,6 +36,8 @@ def SOp.valid (size : Nat) : SOp α → Prop
   | .popBack => 0 < size
   | .erase p => p < size
   | .eraseRange p q => p ≤ q ∧ q ≤ size
+  | .insert p _ | .insertMove p _ => p ≤ size
+  | .insertSelf p i => p ≤ size ∧ i < size
   | _ => True
 
 /-- the model program of the call on container `c` (the aliasing source is resolved against the current buffer) -/
@@ -49,6 +54,9 @@ def SOp.run (cfg : Cfg) (c : Nat) (w : World α) : SOp α → M α Unit
   | .resizeVal n v => resizeWith cfg c n (.ext v)
   | .append vs => appendRangeFwd cfg c true (vs.map Src.ext) >>= fun _ => pure ()
   | .insertEndN n v => appendCopies cfg c n (.ext v) >>= fun _ => pure ()
+  | .insert p v => emplaceAt cfg c p (.ext v) false >>= fun _ => pure ()
+  | .insertMove p v => emplaceAt cfg c p (.extMove v) true >>= fun _ => pure ()
+  | .insertSelf p i => emplaceAt cfg c p (.copyOf (w.hdr c).data i) false >>= fun _ => pure ()
 
 /-- what std::vector does (Spec/L0.lean) -/
 def SOp.spec : SOp α → List (Val α) → List (Val α)
@@ -64,11 +72,15 @@ def SOp.spec : SOp α → List (Val α) → List (Val α)
   | .resizeVal n v, xs => L0.resize xs n (.val v)
   | .append vs, xs => L0.append xs (vs.map Val.val)
   | .insertEndN n v, xs => (L0.insertN xs xs.length n (.val v)).1
+  | .insert p v, xs => (L0.insertAt xs p (.val v)).1
+  | .insertMove p v, xs => (L0.insertAt xs p (.val v)).1
+  | .insertSelf p i, xs => (L0.insertAt xs p (xs.getD i .husk)).1
 
 /-- operations with the strong exception guarantee (erase and erase(range) only have the basic one) -/
 def SOp.strong : SOp α → Bool
   | .erase _ | .eraseRange _ _ => false
   | .insertEndN _ _ => false     -- insert (end, n, x) is append_copies without the strong policy: basic guarantee
+  | .insert _ _ | .insertMove _ _ | .insertSelf _ _ => false   -- strong only at the end position (C05.insert_at_end_strong)
   | _ => true
 
 theorem pre_faults {cfg : Cfg} {w : World α} {c : Nat} (hp : Pre cfg w c) (f : List Nat) : Pre cfg { w with faults := f } c :=
@@ -228,6 +240,51 @@ theorem step_spec (cfg : Cfg) (c : Nat) (op : SOp α) (w : World α) (xs : List 
     | thrown e w' =>
       rw [hr] at hs
       exact ⟨C06.usable_after_throw cfg c w w' hp hs.2.1, fun h => by simp [SOp.strong] at h⟩
+  | insert p v =>
+    have ha : ArgOK cfg w c (.ext v) := ⟨rfl, fun _ _ h => by simp [Src.loc] at h, fun _ _ h => by simp [Src.loc] at h⟩
+    show match (emplaceAt cfg c p (.ext v) false >>= fun _ => pure ()) w with | .ok _ w' => _ | .thrown _ w' => _
+    rw [run_discard]
+    have hs := emplaceAt_sat cfg c p (.ext v) false w hp.vec hp.led hp.nmax hv ha (fun h => by cases h) hpol
+    cases hr : emplaceAt cfg c p (.ext v) false w with
+    | ok r w' =>
+      rw [hr] at hs
+      exact ⟨C06.usable_after_throw cfg c w w' hp hs.2.1.basic, hs.2.1.holds xs hx⟩
+    | thrown e w' =>
+      rw [hr] at hs
+      exact ⟨C06.usable_after_throw cfg c w w' hp hs.1.1, fun h => by simp [SOp.strong] at h⟩
+  | insertMove p v =>
+    have ha : ArgOK cfg w c (.extMove v) := ⟨rfl, fun _ _ h => by simp [Src.loc] at h, fun _ _ h => by simp [Src.loc] at h⟩
+    show match (emplaceAt cfg c p (.extMove v) true >>= fun _ => pure ()) w with | .ok _ w' => _ | .thrown _ w' => _
+    rw [run_discard]
+    have hs := emplaceAt_sat cfg c p (.extMove v) true w hp.vec hp.led hp.nmax hv ha (fun _ => ⟨v, rfl⟩) hpol
+    cases hr : emplaceAt cfg c p (.extMove v) true w with
+    | ok r w' =>
+      rw [hr] at hs
+      exact ⟨C06.usable_after_throw cfg c w w' hp hs.2.1.basic, hs.2.1.holds xs hx⟩
+    | thrown e w' =>
+      rw [hr] at hs
+      exact ⟨C06.usable_after_throw cfg c w w' hp hs.1.1, fun h => by simp [SOp.strong] at h⟩
+  | insertSelf p i =>
+    have hi : i < xs.length := by rw [hlen]; exact hv.2
+    have hslot := hx.2 i hi
+    have ha : ArgOK cfg w c (.copyOf (w.hdr c).data i) :=
+      ⟨rfl, fun b j hl => by simp [Src.loc] at hl; obtain ⟨h1, h2⟩ := hl; subst h1; subst h2; exact ⟨_, hslot⟩,
+       fun b j hl => by simp [Src.loc] at hl; obtain ⟨h1, h2⟩ := hl; subst h1; subst h2; exact ⟨rfl, by rw [← hx.1]; exact hi⟩⟩
+    show match (emplaceAt cfg c p (.copyOf (w.hdr c).data i) false >>= fun _ => pure ()) w with | .ok _ w' => _ | .thrown _ w' => _
+    rw [run_discard]
+    have hs := emplaceAt_sat cfg c p (.copyOf (w.hdr c).data i) false w hp.vec hp.led hp.nmax hv.1 ha (fun h => by cases h) hpol
+    cases hr : emplaceAt cfg c p (.copyOf (w.hdr c).data i) false w with
+    | ok r w' =>
+      rw [hr] at hs
+      refine ⟨C06.usable_after_throw cfg c w w' hp hs.2.1.basic, ?_⟩
+      have := hs.2.1.holds xs hx
+      rw [srcVal_copyOf w _ _ _ hslot] at this
+      show Holds w' c (L0.insertAt xs p (xs.getD i .husk)).1
+      rw [List.getD_eq_getElem?_getD, List.getElem?_eq_getElem hi]
+      exact this
+    | thrown e w' =>
+      rw [hr] at hs
+      exact ⟨C06.usable_after_throw cfg c w w' hp hs.1.1, fun h => by simp [SOp.strong] at h⟩
 
 /-! ### histories -/
 
@@ -353,13 +410,13 @@ theorem history_refines_plain (cfg : Cfg) (c : Nat) (hpol : StrongPolicy cfg) :
 
 /-! ### non-vacuity: a concrete history on the full inline container [1, 2] -/
 def exHist : List (SOp Int × List Nat) :=
-  [(.pushBack 3, []), (.erase 0, []), (.pushBackSelf 1, [1]), (.reserve 9, []), (.resize 1 0, []), (.append [7, 8], [])]
+  [(.pushBack 3, []), (.erase 0, []), (.pushBackSelf 1, [1]), (.reserve 9, []), (.resize 1 0, []), (.append [7, 8], []), (.insertSelf 1 2, [])]
 
 example : ValidHist Ex.cfgT 0 Ex.w0 exHist := by decide +kernel
 example : ThrowsOnlyStrong Ex.cfgT 0 Ex.w0 exHist := by decide +kernel
 /-- the third call throws (fault at the second fault point, during the reallocating push_back) and changes nothing -/
-example : specHist Ex.cfgT 0 Ex.w0 exHist [.val 1, .val 2] = [.val 2, .val 7, .val 8] := by decide +kernel
+example : specHist Ex.cfgT 0 Ex.w0 exHist [.val 1, .val 2] = [.val 2, .val 8, .val 7, .val 8] := by decide +kernel
 example : let w := runHist Ex.cfgT 0 Ex.w0 exHist
-    (w.mem (w.hdr 0).data).take (w.hdr 0).size = [.obj (.val 2), .obj (.val 7), .obj (.val 8)] := by decide +kernel
+    (w.mem (w.hdr 0).data).take (w.hdr 0).size = [.obj (.val 2), .obj (.val 8), .obj (.val 7), .obj (.val 8)] := by decide +kernel
 
 end SvModel.History
